@@ -365,6 +365,10 @@ def _layout_worker(task):
             return runs
         res = explore(prog, body, {"max_updepth": 0, "max_steps": 400000, "max_inline": 200, "model_zero_division": False},
                       max_paths=4)
+        if len(res) == 1 and res[0].outcome == "raise":
+            # layout() is total on trees: an exception on a concrete shape is a violation, not an analysis problem
+            out.append({"shape": shape_str(s), "problems": [f"layout() raises {res[0].exc}"], "raises": True})
+            continue
         if len(res) != 1 or res[0].outcome != "return":
             out.append({"shape": shape_str(s), "error": f"{len(res)} paths / {res[0].outcome if res else '-'} "
                         f"{(res[0].exc or res[0].note) if res else ''}"})
@@ -487,6 +491,8 @@ def run_geometry(chk: Check, prog: Program) -> None:
 
 
 def _classify_geo(p: str) -> str:
+    if "raises" in p:
+        return "raises"
     if "apart" in p:
         return "separation"
     if "strictly" in p:
